@@ -381,6 +381,7 @@ fn add_results_tie(rep: &mut Report, rng: &mut Rng) {
     let n = rep.budget(1_500, 20);
     let mut reqs = vec![];
     let mut impl_out = vec![];
+    let mut oracle_failed: Vec<usize> = vec![];
     for i in 0..n {
         let with_dir = rng.chance(1, 2);
         let nb = rng.range(1, 4);
@@ -392,6 +393,24 @@ fn add_results_tie(rep: &mut Report, rng: &mut Rng) {
                     .map(|_| (rng.pick(&spellings).clone(), gen_cov(rng, false)))
                     .collect(),
             );
+        }
+        // directed: a batch in which an EARLIER record saturates a counter of a file that is
+        // already in the map and a LATER record names a file that is in the map too (every
+        // record of a batch must be folded in, whatever the earlier ones did)
+        if i % 5 == 4 {
+            let (f1, f2) = (rng.pick(&spellings).clone(), rng.pick(&spellings).clone());
+            let l = rng.range(1, 8) as u32;
+            let mut big = gen_cov(rng, false);
+            big.lines.insert(l, U64MAX - rng.below(3));
+            let mut more = gen_cov(rng, false);
+            more.lines.insert(l, rng.range(3, 9));
+            batches.insert(0, vec![(f1.clone(), big), (f2.clone(), gen_cov(rng, false))]);
+            let mut late = vec![(f1, more), (f2, gen_cov(rng, true))];
+            for _ in 0..rng.below(2) {
+                late.push((rng.pick(&spellings).clone(), gen_cov(rng, false)));
+            }
+            batches.insert(1, late);
+            rep.count("addresults.directed_saturation_then_existing_key");
         }
         // canon table, computed independently with std
         let mut tab = vec![];
@@ -419,6 +438,7 @@ fn add_results_tie(rep: &mut Report, rng: &mut Rng) {
         );
         let req = req.trim_end().to_string();
         let map: Mutex<grcov::CovResultMap> = Mutex::new(Default::default());
+        let snaps: Mutex<Vec<Vec<(String, CovResult)>>> = Mutex::new(vec![]);
         let r = guarded(|| {
             for b in &batches {
                 grcov::verif_add_results(
@@ -426,8 +446,45 @@ fn add_results_tie(rep: &mut Report, rng: &mut Rng) {
                     &map,
                     if with_dir { Some(root.as_path()) } else { None },
                 );
+                let m = map.lock().unwrap();
+                snaps.lock().unwrap().push(m.iter().map(|(k, c)| (k.clone(), c.clone())).collect());
             }
         });
+        // property oracle on the implementation's own maps (independent of the model)
+        if r.is_ok() {
+            let snaps = snaps.lock().unwrap();
+            let dir = if with_dir { Some(root.as_path()) } else { None };
+            if let Some(w) = oracle_add_results(&batches, &snaps, dir) {
+                rep.fail(
+                    "oracle",
+                    None,
+                    w,
+                    json!({"op": "addresults", "request": req, "with_dir": with_dir,
+                        "batches": batches.iter().map(|b| b.iter().map(|(k, c)| json!([k, show_cov(c)])).collect::<Vec<_>>()).collect::<Vec<_>>()}),
+                );
+                oracle_failed.push(i as usize);
+            }
+            // the same batches in reverse order: the same observables (order independence)
+            let map2: Mutex<grcov::CovResultMap> = Mutex::new(Default::default());
+            let r2 = guarded(|| {
+                for b in batches.iter().rev() {
+                    grcov::verif_add_results(b.clone(), &map2, dir);
+                }
+            });
+            if r2.is_ok() && batches.len() >= 2 {
+                let show = |m: &grcov::CovResultMap| {
+                    let mut v: Vec<String> = m.iter().map(|(k, c)| format!("{}={}", k, obs(c))).collect();
+                    v.sort();
+                    v.join(" ")
+                };
+                let (m1, m2) = (map.lock().unwrap(), map2.lock().unwrap());
+                if show(&m1) != show(&m2) && !oracle_failed.contains(&(i as usize)) {
+                    rep.fail("oracle", None, "add_results: the same batches merged in reverse order give different line counts / branch vectors / executed flags".into(),
+                        json!({"op": "addresults", "request": req, "with_dir": with_dir}));
+                    oracle_failed.push(i as usize);
+                }
+            }
+        }
         let out = match r {
             Ok(()) => {
                 let m = map.lock().unwrap();
@@ -453,6 +510,9 @@ fn add_results_tie(rep: &mut Report, rng: &mut Rng) {
     for i in 0..reqs.len() {
         if impl_out[i] != model_out[i] {
             rep.disagreements_checked += 1;
+            if oracle_failed.contains(&i) {
+                continue; // already reported with its failing input by the oracle
+            }
             rep.fail(
                 "disagreement",
                 None,
@@ -461,6 +521,69 @@ fn add_results_tie(rep: &mut Report, rng: &mut Rng) {
             );
         }
     }
+}
+
+/// C01 at the level of the result map, evaluated on the maps `add_results` produced (`snaps[j]` =
+/// the map after batch j), independently of `merge_results` and of the model:
+///  * the final map has exactly one entry per canonical key named by some record, and that entry
+///    is the closed form (clamped sum, slot-wise OR over the longest vector, executed OR) of ALL
+///    records filed under the key, whatever came before them in their batch;
+///  * a function's start line is that of some record naming it;
+///  * from one batch to the next nothing is removed, lowered, shortened or cleared.
+fn oracle_add_results(
+    batches: &[Vec<(String, CovResult)>],
+    snaps: &[Vec<(String, CovResult)>],
+    source_dir: Option<&std::path::Path>,
+) -> Option<String> {
+    use std::collections::BTreeMap;
+    let canon = |k: &str| -> String {
+        match source_dir {
+            Some(d) => match std::fs::canonicalize(d.join(k)) {
+                Ok(p) if p.to_str().is_some() => p.to_str().unwrap().to_string(),
+                _ => k.to_string(),
+            },
+            None => k.to_string(),
+        }
+    };
+    let mut by_key: BTreeMap<String, Vec<CovResult>> = BTreeMap::new();
+    for (j, b) in batches.iter().enumerate() {
+        for (k, c) in b {
+            by_key.entry(canon(k)).or_default().push(c.clone());
+        }
+        let got: BTreeMap<String, CovResult> = snaps[j].iter().cloned().collect();
+        if got.len() != snaps[j].len() {
+            return Some("add_results: a key occurs twice in the result map".into());
+        }
+        if got.keys().collect::<Vec<_>>() != by_key.keys().collect::<Vec<_>>() {
+            return Some(format!("add_results: after batch {} the files of the result map are not exactly the files named so far (canonical spelling)", j));
+        }
+        for (k, cs) in &by_key {
+            let g = &got[k];
+            if obs(g) != closed_form(cs) {
+                return Some(format!(
+                    "add_results: after batch {} the record of {:?} is not the aggregate of the {} records filed under it (a record of the batch was dropped, counted twice or mixed): report {} expected {}",
+                    j, k, cs.len(), obs(g), closed_form(cs)));
+            }
+            for (n, f) in &g.functions {
+                if !cs.iter().any(|x| x.functions.get(n).map(|h| h.start == f.start).unwrap_or(false)) {
+                    return Some(format!("add_results: start line of {:?} in {:?} is from no input", n, k));
+                }
+            }
+        }
+        if j > 0 {
+            let prev: BTreeMap<String, CovResult> = snaps[j - 1].iter().cloned().collect();
+            for (k, a) in &prev {
+                let Some(b) = got.get(k) else { return Some(format!("add_results: file {:?} removed from the report by batch {}", k, j)) };
+                let lines_ok = a.lines.iter().all(|(l, v)| b.lines.get(l).map(|w| w >= v).unwrap_or(false));
+                let br_ok = a.branches.iter().all(|(l, v)| b.branches.get(l).map(|w| w.len() >= v.len() && v.iter().zip(w).all(|(x, y)| !*x || *y)).unwrap_or(false));
+                let fn_ok = a.functions.iter().all(|(n, f)| b.functions.get(n).map(|g| (!f.executed || g.executed) && g.start == f.start).unwrap_or(false));
+                if !(lines_ok && br_ok && fn_ok) {
+                    return Some(format!("add_results: batch {} lowered or removed a line, branch or function of {:?} (the report must only grow)", j, k));
+                }
+            }
+        }
+    }
+    None
 }
 
 /// thorough: all pairs of records over 2 lines × counts {absent,0,1,MAX-1,MAX} × one branch line
@@ -569,6 +692,29 @@ pub fn replay(rep: &mut Report, case: &serde_json::Value) {
             }
             if obs(&l) != closed_form(&cs) {
                 rep.fail("oracle", None, "fold != closed form".into(), case.clone());
+            }
+        }
+        "addresults" if case.get("batches").is_some() => {
+            // the recorded batches against a freshly built source tree of the same shape
+            let root = rep.workdir.join("src_tree");
+            std::fs::create_dir_all(root.join("a")).unwrap();
+            for f in ["a/b.c", "a/d.c", "e.c"] {
+                std::fs::write(root.join(f), "x\n").unwrap();
+            }
+            let root = std::fs::canonicalize(&root).unwrap();
+            let batches: Vec<Vec<(String, CovResult)>> = case["batches"].as_array().unwrap().iter()
+                .map(|b| b.as_array().unwrap().iter().map(|e| (e[0].as_str().unwrap().to_string(), parse_cov(e[1].as_str().unwrap()))).collect())
+                .collect();
+            let dir = if case["with_dir"].as_bool().unwrap_or(false) { Some(root.as_path()) } else { None };
+            let map: Mutex<grcov::CovResultMap> = Mutex::new(Default::default());
+            let mut snaps = vec![];
+            for b in &batches {
+                grcov::verif_add_results(b.clone(), &map, dir);
+                snaps.push(map.lock().unwrap().iter().map(|(k, c)| (k.clone(), c.clone())).collect());
+            }
+            rep.case("addresults", true);
+            if let Some(w) = oracle_add_results(&batches, &snaps, dir) {
+                rep.fail("oracle", None, w, case.clone());
             }
         }
         "addresults" => {
